@@ -119,7 +119,7 @@ def dec_world(schema):
 
 
 def xdec_events(args):
-    schema, ty, val, b, tag = args
+    schema, ty, val, b, tag = args[:5]
     w = dec_world(schema)
     out = []
     for impl in ("bp", "ref"):
@@ -200,7 +200,7 @@ def run_legalenc(ctx, schema, msgs, params, export, timeout=1500, invariants=("D
         for v in r.printed():
             if isinstance(v, list) and v and v[0] == "CASE":
                 m = shards[k][v[1] - 1]
-                cases.append((schema, m["ty"], m["val"], bytes(v[2]), "legalenc"))
+                cases.append((schema, m["ty"], m["val"], bytes(v[2]), "legalenc", bytes(v[3])))
     ctx.states += tot_d
     ctx.transitions += tot_g
     ctx.mc_runs.append({"module": "MC_Codec", "config": "PadMax,MaxShadow,MaxUnknown,MaxChunk,MaxVar=%r export=%s; %d messages in %d shards" % (params, export, len(msgs), len(shards)),
